@@ -288,6 +288,17 @@ func (c *Ctx) newVC(fn *ssa.Function, fc *FuncContract) *VC {
 			}
 		}
 	}
+	// a function that itself initialises a stable field (on objects it allocates)
+	// must see its own writes: model the field with ordinary versions there
+	for _, b := range fn.Blocks {
+		for _, in := range b.Instrs {
+			if st, ok := in.(*ssa.Store); ok {
+				if T, f, ok := fieldOfLoad(st.Addr); ok && c.stableArr["H."+T+"."+f] {
+					so["H."+T+"."+f] = true
+				}
+			}
+		}
+	}
 	return &VC{ctx: c, fn: fn, fc: fc, declSet: map[string]bool{}, arrSort: map[string]string{}, snipCnt: map[string]int{},
 		abstracted: map[string]int{}, strlits: map[string]string{}, calledContracts: map[string]int{}, externals: map[string]int{}, usedTypeInvs: map[string]bool{}, stableOwner: so, arrBound: map[string]string{}}
 }
